@@ -160,6 +160,7 @@ class GroupResult(object):
         self.prep = []
         self.cmds = []
         self.n_instances = None
+        self.native = None
 
 
 def _parse_cbmc_json(raw):
